@@ -564,7 +564,7 @@ class Gen:
         body = it.body
         pre_hits = {}
         if getattr(self, 'inline', None):
-            body = self._inline_calls(body, pre_hits)
+            body = self._inline_calls(body, pre_hits, it.signature)
         body, hits = rules.apply(body, self, kv.get('rules', ''), fn_id=fid, local=local_rw)
         for k2, v2 in pre_hits.items():
             hits[k2] = hits.get(k2, 0) + v2
@@ -704,10 +704,98 @@ class Gen:
                 params.append((pm.group(2), pm.group(3), bool(pm.group(1))))
         return {'params': params, 'body': body, 'file': file, 'lines': [it.line_start, it.line_end], 'sha256': sha(it.text)}
 
-    def _inline_calls(self, text, hits):
+    def _inlinable_method(self, file, name, recv_type):
+        """R18 for methods: `self.NAME(args)` where NAME is a method WITHOUT a contract of the caller's own type (found in exactly one
+        impl block of `file` whose header names `recv_type`), straight-line as for R18. A body that uses `?` is accepted when its last
+        expression is `Ok(e)` and it returns `Result<_, Error>`: then only call sites of the form `self.NAME(args)?` inside a function
+        returning `Result<_, Error>` are replaced (by the body with `e` as its value): `?` in the body and `?` on the call convert
+        into the same error type, so both leave the caller with the same `Err`."""
+        src = read_repo(file)
+        found = []
+        for s, bo, be in rs.find_blocks(src, r'^impl\b'):
+            header = rs.norm_ws(src[s:bo])
+            for fs, fbo, fbe in rs.find_blocks(src, r'(^|\s)fn ' + re.escape(name) + r'\s*(<|\()', bo + 1, be - 1):
+                found.append((header, rs.Item(src, fs, fbo, fbe, file)))
+        if len(found) != 1:
+            return None
+        header, it = found[0]
+        target = header.split(' for ', 1)[1] if ' for ' in header else re.sub(r'^impl\s*(<[^{]*?>\s+)?', '', header)
+        if recv_type and not re.match(r'\s*&?\s*(mut\s+)?' + re.escape(recv_type) + r'\b', target):
+            return None
+        body = it.body
+        code = ''.join(body[a:b] if k not in ('comment', 'str', 'char') else ' ' * (b - a) for k, a, b in rs.tokenize(body))
+        if re.search(r'\b(loop|while|for)\b|\bunsafe\b', code) or re.search(r'\b' + re.escape(name) + r'\s*\(', code):
+            return None
+        if re.search(r'\breturn\b(?!\s+Err\s*\()', code) or '|' in re.sub(r'\|\|', '', code):
+            return None     # only `return Err(..)` (same meaning after inlining at a `?` call site); no closures (their `return`/`?` differ)
+        sig = rs.norm_ws(it.signature)
+        m = re.search(r'fn\s+' + re.escape(name) + r'\s*(<[^>]*>)?\s*\((.*)\)\s*(->\s*(.*?))?\s*(where\b.*)?$', sig, re.S)
+        if not m or m.group(1) or m.group(5):
+            return None
+        ret = (m.group(4) or '').strip()
+        parts, depth, cur = [], 0, ''
+        for ch in m.group(2).strip():
+            if ch in '(<[':
+                depth += 1
+            elif ch in ')>]':
+                depth -= 1
+            if ch == ',' and depth == 0:
+                parts.append(cur)
+                cur = ''
+            else:
+                cur += ch
+        if cur.strip():
+            parts.append(cur)
+        if not parts or not re.match(r'^\s*(&\s*(mut\s+)?)?self\s*$', parts[0]):
+            return None
+        params = []
+        for part in parts[1:]:
+            pm = re.match(r'\s*(mut\s+)?(\w+)\s*:\s*(.+?)\s*$', part, re.S)
+            if not pm:
+                return None
+            params.append((pm.group(2), pm.group(3), bool(pm.group(1))))
+        tryq = '?' in code or re.search(r'\breturn\b', code) is not None
+        if tryq:
+            if not re.match(r'^Result\s*<.*,\s*Error\s*>$', ret, re.S):
+                return None
+            # last expression of the body must be `Ok(e)`
+            lead = len(body) - len(body.lstrip())
+            inner = body.strip()[1:-1]
+            icode = code[lead:lead + len(body.strip())][1:-1]
+            depth, last = 0, -1
+            for i, ch in enumerate(icode):
+                if ch in '([{':
+                    depth += 1
+                elif ch in ')]}':
+                    depth -= 1
+                    if depth == 0 and ch == '}':
+                        last = i
+                elif ch == ';' and depth == 0:
+                    last = i
+            tail = inner[last + 1:]
+            tm = re.match(r'^(\s*)Ok\s*\((.*)\)(\s*)$', tail, re.S)
+            if not tm or '?' in icode[last + 1:]:
+                return None
+            e = tm.group(2)
+            d = 0
+            for ch in e:
+                if ch == '(':
+                    d += 1
+                elif ch == ')':
+                    d -= 1
+                    if d < 0:
+                        return None
+            body = '{' + inner[:last + 1] + tm.group(1) + '(' + e + ')' + tm.group(3) + '}'
+        return {'params': params, 'body': body, 'file': file, 'lines': [it.line_start, it.line_end], 'sha256': sha(it.text),
+                'method': True, 'try': tryq}
+
+    def _inline_calls(self, text, hits, caller_sig=''):
         for name, inl in self.inline.items():
             k = 0
-            rx = re.compile(r'(?<![\w.:])' + re.escape(name) + r'\s*\(')
+            if inl.get('method'):
+                rx = re.compile(r'(?<![\w.:])self\s*\.\s*' + re.escape(name) + r'\s*\(')
+            else:
+                rx = re.compile(r'(?<![\w.:])' + re.escape(name) + r'\s*\(')
             while True:
                 m = rx.search(text, k)
                 if not m:
@@ -736,6 +824,12 @@ class Gen:
                 if len(args) != len(inl['params']):
                     k = q
                     continue
+                if inl.get('try'):
+                    qm = re.match(r'\s*\?', text[q:])
+                    if not qm or not re.search(r'->\s*Result\s*<.*,\s*Error\s*>\s*(where\b.*)?$', rs.norm_ws(caller_sig), re.S):
+                        k = q
+                        continue
+                    q += qm.end()
                 pre = ' '.join(f'let vin_{name}_{i} = {a.strip()};' for i, a in enumerate(args))
                 bind = ' '.join(f'let {"mut " if mu else ""}{pn}: {pt} = vin_{name}_{i};' for i, (pn, pt, mu) in enumerate(inl['params']))
                 one_line = ' '.join(l.strip() for l in inl['body'].split('\n') if not l.strip().startswith('//'))
@@ -782,12 +876,18 @@ class Gen:
         self.emit('verus! {', ('gen', '', 0))
         self.inline = {}
         for (file, name), props in sorted(self.auto_fns.items()):
+            if name.startswith('method:'):
+                _m, recv, mname = name.split(':', 2)
+                inl = self._inlinable_method(file, mname, recv)
+                if inl:
+                    self.inline[mname] = inl
+                continue
             inl = self._inlinable(file, name)
             if inl:
                 self.inline[name] = inl
         self.include(self.tmpl_path, 'tmpl')
         for (file, name), props in sorted(self.auto_fns.items()):
-            if name not in self.inline:
+            if name not in self.inline and not name.startswith('method:'):
                 self.emit_auto_fn(file, name, props)
         self.emit('} // verus!', ('gen', '', 0))
         self.emit('fn main() {}', ('gen', '', 0))
